@@ -11,5 +11,6 @@ for ID in "$@"; do
   v=$(echo "$out" | grep -c '^VIOLATION')
   if [ $rc -eq 1 ] && [ $v -ge 1 ]; then echo "SEED $(basename $SEED) $ID: CAUGHT"; else echo "SEED $(basename $SEED) $ID: MISSED rc=$rc"; fi
   echo "$out" > /var/tmp/seedrun-$(basename $SEED)-$ID.log
+  git checkout -q -- evidence/$ID.json 2>/dev/null   # the run's evidence describes a seeded tree: restore the committed file
 done
 git -C /repo checkout -- . ; git -C /repo clean -fdq
